@@ -382,3 +382,104 @@ func TestVerifRedefineOutputs(t *testing.T) {
 	}
 	t.Logf("output-filter scenarios run: %d, failing: %d", n, failures)
 }
+
+// TestVerifRedefineLate (C09): a Redefine that fails late (while walking the
+// plan: a two-input converter reachable through one permitted input only)
+// must leave the converters it was given intact: no execution during
+// planning, and the next real call runs the real bodies.
+func TestVerifRedefineLate(t *testing.T) {
+	for _, once := range []bool{false, true} {
+		runs := 0
+		var fo []Arg
+		if once {
+			fo = append(fo, FuncOnce())
+		}
+		conv := MustFunc(NewFunc(func(s rT1, neg bool) rT0 {
+			runs++
+			v := s.V
+			if neg {
+				v = "-" + v
+			}
+			return rT0{v}
+		}, fo...))
+		target := MustFunc(NewFunc(func(v rT0) string { return v.V }))
+		lg := Logger(hclog.NewNullLogger())
+		_, rerr := target.Redefine(lg, ConverterFunc(conv), FilterInput(FilterType(reflect.TypeOf(true))))
+		if rerr == nil {
+			// not the late-failure shape any more: nothing to check here
+			continue
+		}
+		if runs != 0 {
+			t.Errorf("FAILING-INPUT redefine-late once=%v: the failed Redefine executed the converter %d time(s)", once, runs)
+		}
+		if _, err := target.Redefine(lg, ConverterFunc(conv)); err != nil {
+			t.Errorf("FAILING-INPUT redefine-late once=%v: a later Redefine fails: %v", once, strings.Split(err.Error(), "\n")[0])
+		}
+		r := target.Call(lg, Typed(rT1{"41"}), Typed(true), ConverterFunc(conv))
+		if r.Err() != nil {
+			t.Errorf("FAILING-INPUT redefine-late once=%v: the real call after a failed Redefine fails: %v", once, strings.Split(r.Err().Error(), "\n")[0])
+		} else if r.Out(0) != "-41" || runs != 1 {
+			t.Errorf("FAILING-INPUT redefine-late once=%v: the real call after a failed Redefine returned %v after %d execution(s) of the converter", once, r.Out(0), runs)
+		}
+	}
+}
+
+// TestVerifRedefineNamed (C08): named values. A supplied named value that
+// reaches the requirement through a converter with a named input must not be
+// declared again; a new named input shared by two parameters is declared once.
+func TestVerifRedefineNamed(t *testing.T) {
+	lg := Logger(hclog.NewNullLogger())
+	type inS struct {
+		Struct
+		S rT1
+	}
+	conv := func(in inS) rT0 { return rT0{in.S.V} }
+	{
+		target := MustFunc(NewFunc(func(in struct {
+			Struct
+			B rT0
+		}) string {
+			return in.B.V
+		}))
+		rf, err := target.Redefine(lg, Named("s", rT1{"12"}), Converter(conv), FilterInput(FilterType(reflect.TypeOf(rT1{}))))
+		if err != nil {
+			t.Errorf("FAILING-INPUT redefine-named supplied-named: Redefine failed: %v", strings.Split(err.Error(), "\n")[0])
+		} else {
+			for _, v := range rf.Input().Values() {
+				if v.Name == "s" {
+					t.Errorf("FAILING-INPUT redefine-named supplied-named: the supplied named value s is declared again as an input")
+				}
+			}
+		}
+	}
+	{
+		target := MustFunc(NewFunc(func(in struct {
+			Struct
+			B rT0
+			C rT0 `argmapper:",typeOnly"`
+		}) string {
+			return in.B.V + in.C.V
+		}))
+		var rf *Func
+		var err error
+		func() {
+			defer func() {
+				if r := recover(); r != nil {
+					t.Errorf("FAILING-INPUT redefine-named shared-input: Redefine panicked: %v", r)
+				}
+			}()
+			rf, err = target.Redefine(lg, Converter(conv), FilterInput(FilterType(reflect.TypeOf(rT1{}))))
+		}()
+		if err == nil && rf != nil {
+			n := 0
+			for _, v := range rf.Input().Values() {
+				if v.Name == "s" {
+					n++
+				}
+			}
+			if n > 1 {
+				t.Errorf("FAILING-INPUT redefine-named shared-input: the new named input s is declared %d times", n)
+			}
+		}
+	}
+}
